@@ -1,4 +1,5 @@
 import numpy as np
+from scipy.integrate import trapezoid
 
 from eqsig import exceptions
 from eqsig.fns.average import get_section_average
@@ -749,7 +750,7 @@ class AccSignal(Signal):
         try:
             self.t_b01 = time2[-1] - time2[0]
             # rms acceleration in m/s/s
-            self.a_rms01 = np.sqrt(1 / self.t_b01 * np.trapz((self.values[ind01[0][0]:ind01[0][-1]]) ** 2, dx=self.dt))
+            self.a_rms01 = np.sqrt(1 / self.t_b01 * trapezoid((self.values[ind01[0][0]:ind01[0][-1]]) ** 2, dx=self.dt))
         except IndexError:
             self.t_b01 = -1.
             self.a_rms01 = -1.
@@ -758,7 +759,7 @@ class AccSignal(Signal):
         time05 = time[ind05]
         try:
             self.t_b05 = time05[-1] - time05[0]
-            self.a_rms05 = np.sqrt(1 / self.t_b05 * np.trapz((self.values[ind05[0][0]:ind05[0][-1]]) ** 2, dx=self.dt))
+            self.a_rms05 = np.sqrt(1 / self.t_b05 * trapezoid((self.values[ind05[0][0]:ind05[0][-1]]) ** 2, dx=self.dt))
         except IndexError:
             self.t_b05 = -1.
             self.a_rms05 = -1.
@@ -766,7 +767,7 @@ class AccSignal(Signal):
         time10 = time[ind10]
         try:
             self.t_b10 = time10[-1] - time10[0]
-            self.a_rms10 = np.sqrt(1 / self.t_b10 * np.trapz((self.values[ind10[0][0]:ind10[0][-1]]) ** 2, dx=self.dt))
+            self.a_rms10 = np.sqrt(1 / self.t_b10 * trapezoid((self.values[ind10[0][0]:ind10[0][-1]]) ** 2, dx=self.dt))
         except IndexError:
             self.t_b10 = -1.
             self.a_rms10 = -1.
